@@ -25,8 +25,31 @@ def cmp_mask(prop, case, impl, model):
         out.append(('disagree', 'mask:model-out', 'mechanistic model output differs from implementation'))
     return out
 
+def cmp_wireout(prop, case, impl, model):
+    out = []
+    if 'PANIC' in impl:
+        return [('violation', 'wire-out:panic', 'implementation panicked: ' + impl['PANIC'][:200])]
+    if 'hang' in impl:
+        return [('violation', 'wire-out:hang', 'scenario did not terminate: ' + impl['hang'])]
+    if 'dialerr' in impl:
+        return [('disagree', 'wire-out:handshake', 'could not establish the scripted connection: ' + impl['dialerr'])]
+    if 'modelerror' in model:
+        return [('disagree', 'wire-out:modelerror', model['modelerror'][:300])]
+    j = model.get('judge', '?')
+    if j != 'ok':
+        out.append(('violation', 'wire-out:' + j.replace('violation:', ''), 'reference decoder on the bytes the library wrote: ' + j))
+    if prop == 'C01' and impl.get('bufs') != 'ok':
+        out.append(('violation', 'wire-out:caller-buffer-modified', 'a buffer passed to a write call was modified'))
+    if impl.get('errs') != model.get('errs'):
+        # a refused Close must error and an accepted call must succeed (C06); for other properties this is a correspondence difference
+        out.append(('violation' if prop == 'C06' else 'disagree', 'wire-out:call-results', 'call results %s, model %s' % (impl.get('errs'), model.get('errs'))))
+    if not out and impl.get('wirefnv') != model.get('wirefnv'):
+        out.append(('disagree', 'wire-out:wire-bytes', 'model wire (%s bytes) differs from implementation wire (%s bytes)' % (model.get('n'), impl.get('n'))))
+    return out
+
 COMPARE = {
     'mask': cmp_mask,
+    'wire-out': cmp_wireout,
 }
 
 def nontrivial(suite, case, impl):
@@ -35,7 +58,11 @@ def nontrivial(suite, case, impl):
         m = re.match(r'gen:\w+:(\d+):', d)
         n = int(m.group(1)) if m else (0 if d == '-' else len(d) // 2)
         return n >= 4
+    if suite == 'wire-out':
+        return int(impl.get('n', '0') or 0) > 200 or '|' in case.get('prog', '')
     return True
+
+FLATE_ASSUME = 'compress/flate is an oracle (Section variables dz / inflate), instantiated in the runner by Go\'s compress/flate run by the harness on its own objects; theorems about compressed messages hold for EVERY compressor behaviour unless they name the flate contract'
 
 COMMON_TRUSTED = [
     'extraction: Require Extraction + ExtrOcamlBasic only (bool/option/unit/list/prod/sumbool/sumor mapped to OCaml; N, Z, positive, nat stay inductive); no Extract Constant',
@@ -44,6 +71,19 @@ COMMON_TRUSTED = [
 ]
 
 PROPS = {
+    'C02': dict(
+        suites=['wire-out'],
+        rule='wire-out suite: seeded programs of Write / Writer(chunks) / Ping / Close on a library endpoint (both roles x {no compression, 4 (cnct,snct) '
+             'combinations incl. asymmetric} x thresholds {default,1,64,1000}); sizes from the framing/bufio/window boundary set; the raw peer records every byte. '
+             'non-trivial = more than one op or > 200 wire bytes; distinct = distinct case line',
+        trusted=COMMON_TRUSTED + [FLATE_ASSUME, 'mask keys are crypto/rand input to the model (read off the wire); "keys differ between frames" is a test in the judge, not a theorem'],
+        assumptions=[FLATE_ASSUME, 'bufio.Writer is transparent for the byte sequence (every operation ends with a flushed final frame)'],
+        level_text='Theorem C02_wf: for every program, role, option set, threshold, key supply and every compressor behaviour the Writer model\'s wire bytes parse back '
+                   '(specification parser) to exactly the frames written and satisfy every conformance clause of the property. Tie: the library\'s recorded bytes equal the '
+                   'model\'s bytes case by case, and the extracted specification decoder (+ inflate) is applied to the library\'s bytes as judge.',
+        level_note='Writer model hand-written from write.go/compress.go/frame.go; compressor is an oracle; message reassembly/inflation equality is checked by the judge on every case (theorem C02_decodes pending).',
+        technique='Coq proof (invariant over operation sequences; decode∘encode) + differential run of the extracted model vs the library through Dial/Accept with a scripted raw peer',
+    ),
     'C17': dict(
         suites=['mask'],
         rule='mask suite: every (fn in {maskGo, maskAsm}) x length x start alignment (64-byte aligned arena, 64 guard bytes each side) '
